@@ -85,7 +85,10 @@ MayWrite(c) == /\ Rows(cur[c]) < plan.n
                /\ (AnyOrder \/ \A d \in 1..(c - 1) : Rows(cur[d]) = plan.n)
 
 GWrite == /\ plan.stage = "fill"
-          /\ \E c \in 1..NCols : MayWrite(c) /\ (Sample \/ plan.cnt[c] < MaxBatches) /\
+          \* sampled runs follow ONE column order (picked by the hash among the writable columns), exhaustive runs all of them
+          /\ \E c \in (IF Sample /\ AnyOrder /\ {d \in 1..NCols : MayWrite(d)} # {}
+                        THEN {PickFrom({d \in 1..NCols : MayWrite(d)}, Mix(Len(hist), 7, 17))} ELSE 1..NCols) :
+               MayWrite(c) /\ (Sample \/ plan.cnt[c] < MaxBatches) /\
                \E k \in (IF Sample THEN {1 + (Mix(Len(hist), c, 3) % (plan.n - Rows(cur[c])))} ELSE 1..(plan.n - Rows(cur[c]))) :
                  \* the last allowed batch must take all remaining rows
                  /\ (plan.cnt[c] = MaxBatches - 1 /\ ~Sample => k = plan.n - Rows(cur[c]))
